@@ -333,6 +333,8 @@ def f25_class(defs, doc):
 def f25_class_req(request):
     """f25_class decided on the request text (so that replays use the same predicate)"""
     a = request.split()
+    if a[0] != "attr":
+        return False
     ty = {}
     for d in a[4].split(";"):
         if d != "-":
@@ -476,6 +478,204 @@ def gen_attr_cases(ctx):
             rng.shuffle(el)
             doc.append(el)
         cases.append((kind, unparsed, parsed, defs, doc))
+    return cases
+
+
+# ---- several element types, many attributes: per-document bookkeeping thresholds -------------------------------
+def scanner_thresholds():
+    """(columns per row of XMLScanner::fUIntPool, attribute count above which duplicates are detected by hashing),
+    read from /repo's source"""
+    import re
+    src = open(os.path.join(V.REPO, "src", "xercesc", "internal", "XMLScanner.cpp")).read()
+    hpp = open(os.path.join(V.REPO, "src", "xercesc", "internal", "XMLScanner.hpp")).read()
+    m1 = re.search(r"fUIntPoolCol\s*<\s*(\d+)", src)
+    m2 = re.search(r"attrNumber\s*>\s*(\d+)", hpp)
+    if not m1 or not m2:
+        raise RuntimeError("cannot read the UInt pool row size / hashed duplicate threshold from XMLScanner")
+    return int(m1.group(1)), int(m2.group(1))
+
+
+def tattr_doc_text(unparsed, parsed, tdefs, doc):
+    out = ['<?xml version="1.0"?>', "<!DOCTYPE r [", "<!ELEMENT r (%s)*>" % "|".join("e%d" % ty for ty, _ in tdefs)]
+    out += ["<!ELEMENT e%d (#PCDATA)>" % ty for ty, _ in tdefs]
+    out.append('<!NOTATION nt SYSTEM "nt">')
+    nots = sorted({t[1] for _, defs in tdefs for d in defs if d[1] == "O" for t in d[2] if t[0] == "n"})
+    out += ['<!NOTATION t%d SYSTEM "x%d">' % (k, k) for k in nots]
+    out += ['<!ENTITY t%d SYSTEM "u%d" NDATA nt>' % (k, k) for k in unparsed]
+    out += ['<!ENTITY t%d "p%d">' % (k, k) for k in parsed]
+    for ty, defs in tdefs:
+        if defs:
+            out.append("<!ATTLIST e%d " % ty + "\n  ".join(def_text(d) for d in defs) + ">")
+    out.append("]>")
+    body = "".join("<e%d%s></e%d>" % (ty, "".join(' a%d="%s"' % (n, val_text(v)) for n, v in el), ty) for ty, el in doc)
+    out.append("<r>" + body + "</r>")
+    return "\n".join(out) + "\n"
+
+
+def tattr_req(sw, unparsed, parsed, tdefs, doc):
+    dr = "|".join("%d@%s" % (ty, ";".join(def_req(d) for d in defs) if defs else "-") for ty, defs in tdefs)
+    er = "/".join("%d@%s" % (ty, ",".join("%d=%s" % (n, val_req(v)) for n, v in el) if el else "-") for ty, el in doc)
+    return "tattr %d %s %s %s %s %s" % (sw, csv(unparsed), csv(parsed), dr, er,
+                                        tattr_doc_text(unparsed, parsed, tdefs, doc).encode().hex().upper())
+
+
+def gen_tattr_cases(ctx):
+    """(kind, unparsed, parsed, tdefs, doc)"""
+    rng = ctx.rng
+    thorough = ctx.tier == "thorough"
+    POOL, DUPHASH = scanner_thresholds()
+    unparsed, parsed = [50, 51], [60]
+    cases = []
+    # -- A. the only violation is a faulted-in default / #FIXED value of a reference type
+    bad_defaults = [("R", [("n", 98)]), ("RS", [("n", 98), ("n", 97)]), ("E", [("n", 60)]), ("E", [("n", 97)]),
+                    ("ES", [("n", 50), ("n", 60)]), ("ES", [("n", 97)])]
+    good_defaults = [("R", [("n", 201)]), ("RS", [("n", 201), ("n", 201)]), ("E", [("n", 50)]), ("ES", [("n", 50), ("n", 51)])]
+    for ty, dv in bad_defaults + good_defaults:
+        for dk in "DF":
+            defs0 = [(1, "I", None, "Q", None), (2, ty, None, dk, dv), (3, "C", None, "I", None)]
+            good_val = {"R": [("n", 201)], "RS": [("n", 201)], "E": [("n", 50)], "ES": [("n", 51)]}[ty]
+            omit = [(0, [(1, [("n", 201)])]), (0, [(1, [("n", 202)]), (3, [("n", 1)])])]        # attribute 2 omitted
+            spec_ = [(0, [(1, [("n", 201)]), (2, dv if dk == "F" else good_val)])]             # attribute 2 specified
+            cases.append(("attr-default-ref", unparsed, parsed, [(0, defs0)], omit))
+            cases.append(("attr-default-ref", unparsed, parsed, [(0, defs0), (1, [(7, "C", None, "I", None)])],
+                          [(1, []), omit[0], (1, [(7, [("n", 3)])])]))
+            if (ty, dv) in good_defaults or dk == "D":
+                cases.append(("attr-default-ref-specified", unparsed, parsed, [(0, defs0)], spec_))
+    # -- B. many declared attributes over several element types, used across the row boundaries of the counter pool
+    totals = sorted({POOL - 1, POOL, POOL + 1, POOL + 2, POOL + 3, 2 * POOL - 1, 2 * POOL, 2 * POOL + 1, 2 * POOL + 2,
+                     DUPHASH, DUPHASH + 1, DUPHASH + 5, 60, 140})
+    nwide = 90 if not thorough else 1500
+    for it in range(nwide):
+        N = rng.choice(totals) if rng.random() < 0.8 else rng.randrange(60, 141)
+        pattern = rng.choice(["one", "head+small", "head+small", "even", "even"])
+        if pattern == "one":
+            sizes = [N]
+        elif pattern == "head+small":
+            small = rng.randrange(2, 7)
+            off = rng.choice([0, 0, 1, 2, -1, -2])
+            head = max(1, min(N - small, rng.choice([POOL, 2 * POOL]) + off - rng.choice([0, 0, 1])))
+            sizes = [head, small] + ([N - head - small] if N - head - small > 0 else [])
+        else:
+            k = rng.randrange(3, 8)
+            sizes = [N // k] * k
+            sizes[-1] += N - sum(sizes)
+        nextname = [0]
+        idtype = rng.randrange(len(sizes)) if rng.random() < 0.5 else None
+        nid = [300]
+        tdefs = []
+        for ty, sz in enumerate(sizes):
+            defs = []
+            for j in range(sz):
+                nextname[0] += 1
+                name = nextname[0]
+                r = rng.random()
+                if ty == idtype and j == 0:
+                    defs.append((name, "I", None, "Q", None))
+                    continue
+                if r < 0.45:
+                    aty, toks = "C", None
+                elif r < 0.6:
+                    aty, toks = "N", None
+                elif r < 0.8:
+                    aty, toks = "M", [("n", 1), ("n", 2), ("m", 3)]
+                elif r < 0.9:
+                    aty, toks = "E", None
+                else:
+                    aty, toks = "NS", None
+                dk = rng.choice("QQIIFD")
+                dv = None
+                if dk in "FD":
+                    dv = {"C": [("n", 5)], "N": [("m", 6)], "M": [("n", 2)], "E": [("n", 50)], "NS": [("n", 5), ("m", 6)]}[aty]
+                defs.append((name, aty, toks, dk, dv))
+            tdefs.append((ty, defs))
+
+        def full(ty, drop=()):
+            el = []
+            for d in tdefs[ty][1]:
+                name, aty, toks, dk, dv = d
+                if name in drop:
+                    continue
+                if aty == "I":
+                    nid[0] += 1
+                    v = [("n", nid[0])]
+                elif dk == "F":
+                    v = dv
+                else:
+                    v = {"C": [("n", rng.randrange(1, 9))], "N": [("m", 6)], "M": [rng.choice(toks)] if toks else None,
+                         "E": [("n", 51)], "NS": [("n", 5)]}[aty]
+                el.append((name, v))
+            return el
+        # first every type once with all its attributes (this fixes the order in which counters are handed out),
+        # then further occurrences that omit / break attributes whose counters sit around the row boundaries
+        doc = [(ty, full(ty)) for ty in range(len(sizes))]
+        order = [d[0] for ty in range(len(sizes)) for d in tdefs[ty][1]]             # attribute name by counter index
+        near = [order[i] for i in range(len(order)) if any(abs(i + 1 - b) <= 2 for b in (POOL, 2 * POOL))] or order[-3:]
+        typeof = {d[0]: ty for ty, defs in tdefs for d in defs}
+        defof = {d[0]: d for ty, defs in tdefs for d in defs}
+        mode = rng.choice(["valid", "valid", "omit-required", "omit-default", "bad-fixed", "bad-enum", "omit-any"])
+        kind = "attr-wide-" + mode
+        target = rng.choice(near)
+        if mode == "omit-required":
+            c = [x for x in near if defof[x][3] == "Q" and defof[x][1] != "I"]
+            target = rng.choice(c) if c else None
+        elif mode == "omit-default":
+            c = [x for x in near if defof[x][3] in "FD"]
+            target = rng.choice(c) if c else None
+        elif mode == "bad-fixed":
+            c = [x for x in near if defof[x][3] == "F"]
+            target = rng.choice(c) if c else None
+        elif mode == "bad-enum":
+            c = [x for x in near if defof[x][1] == "M" and defof[x][3] != "F"]
+            target = rng.choice(c) if c else None
+        if target is None:
+            mode, kind = "valid", "attr-wide-valid"
+        for rep in range(rng.randrange(1, 4)):
+            for ty in rng.sample(range(len(sizes)), len(sizes)):
+                drop = set()
+                for d in tdefs[ty][1]:
+                    if d[3] in "IFD" and rng.random() < 0.3:
+                        drop.add(d[0])
+                el = full(ty, drop)
+                if mode != "valid" and typeof[target] == ty:
+                    if mode in ("omit-required", "omit-default", "omit-any"):
+                        el = [a for a in el if a[0] != target]
+                        if mode == "omit-any" and defof[target][1] == "I":
+                            pass
+                    elif mode == "bad-fixed":
+                        el = [a if a[0] != target else (target, [("n", 77)]) for a in el]
+                        if not any(a[0] == target for a in el):
+                            el.append((target, [("n", 77)]))
+                    elif mode == "bad-enum":
+                        el = [a if a[0] != target else (target, [("n", 96)]) for a in el]
+                        if not any(a[0] == target for a in el):
+                            el.append((target, [("n", 96)]))
+                rng.shuffle(el)
+                doc.append((ty, el))
+        cases.append((kind, unparsed, parsed, tdefs, doc))
+    # -- C. the demo shape: <e0 a1..aPOOL> then two <e1 x y>, and neighbours
+    for head in (POOL - 1, POOL, POOL + 1, 2 * POOL, 2 * POOL + 1):
+        d0 = [(i + 1, "C", None, "I", None) for i in range(head)]
+        for dk2, dv2 in (("Q", None), ("D", [("n", 5)]), ("I", None)):
+            d1 = [(head + 1, "C", None, "I", None), (head + 2, "C", None, dk2, dv2), (head + 3, "C", None, "Q", None)]
+            e0 = (0, [(i + 1, [("n", 1)]) for i in range(head)])
+            both = (1, [(head + 1, [("n", 1)]), (head + 2, [("n", 2)]), (head + 3, [("n", 3)])])
+            part = (1, [(head + 1, [("n", 1)]), (head + 3, [("n", 3)])])
+            cases.append(("attr-pool-demo", unparsed, parsed, [(0, d0), (1, d1)], [e0, both, both]))
+            cases.append(("attr-pool-demo", unparsed, parsed, [(0, d0), (1, d1)], [e0, both, part]))
+            cases.append(("attr-pool-demo", unparsed, parsed, [(0, d0), (1, d1)], [e0, part, both, part]))
+    # -- D. one element type occurring very often (element counter), and a tag with > DUPHASH attributes
+    d0 = [(1, "C", None, "Q", None), (2, "C", None, "D", [("n", 5)]), (3, "M", [("n", 1), ("n", 2)], "I", None)]
+    for cnt in ((300, 1100) if not thorough else (300, 1100, 5000, 70000)):
+        doc = [(0, [(1, [("n", 1)])] + ([(3, [("n", 1)])] if i % 3 == 0 else [])) for i in range(cnt)]
+        cases.append(("attr-many-elements", unparsed, parsed, [(0, d0)], doc))
+        doc2 = list(doc)
+        doc2[cnt - 2] = (0, [(3, [("n", 2)])])                       # one late occurrence lacks the required attribute
+        cases.append(("attr-many-elements-broken", unparsed, parsed, [(0, d0)], doc2))
+    for n in (DUPHASH - 1, DUPHASH, DUPHASH + 1, DUPHASH + 30):
+        dn = [(i + 1, "C", None, "I", None) for i in range(n)]
+        cases.append(("attr-many-on-tag", unparsed, parsed, [(0, dn)], [(0, [(i + 1, [("n", 1)]) for i in range(n)])] * 2))
+        cases.append(("attr-many-on-tag-undeclared", unparsed, parsed, [(0, dn[:n - 1])],
+                      [(0, [(i + 1, [("n", 1)]) for i in range(n)])]))
     return cases
 
 
@@ -878,11 +1078,20 @@ def run(ctx):
             acases = [("attr-F25-witness" if replay_rec.get("tag") == "F25-enum-multi" else "replay",)]
             l1 = [" ".join(a[:1] + ["1"] + a[2:])]
             l0 = [" ".join(a[:1] + ["0"] + a[2:])]
+        elif replay_req.startswith("tattr "):
+            a = replay_req.split()
+            acases = [("replay",)]
+            l1 = [" ".join(a[:1] + ["1"] + a[2:])]
+            l0 = [" ".join(a[:1] + ["0"] + a[2:])]
     else:
         acases = gen_attr_cases(ctx)
         l1 = [attr_req(1, *c[1:]) for c in acases]
         l0 = [attr_req(0, *c[1:]) for c in acases]
-    sp = [" ".join(["aspec"] + l.split()[2:6]) for l in l1]
+        tcases = gen_tattr_cases(ctx)
+        acases = acases + tcases
+        l1 += [tattr_req(1, *c[1:]) for c in tcases]
+        l0 += [tattr_req(0, *c[1:]) for c in tcases]
+    sp = [" ".join([("taspec" if l.startswith("tattr") else "aspec")] + l.split()[2:6]) for l in l1]
     rca, aimpl, aerr = run_bin(xh, l1)
     rcb, am1, _ = run_bin(xm, l1)
     rcc2, am0, _ = run_bin(xm, l0)
@@ -897,6 +1106,7 @@ def run(ctx):
     f25_seen = 0
     f25_witness = False
     adiv = []
+    nbad_other = 0
     for k, (c, i, m1, m0, spv) in enumerate(zip(acases, aimpl, am1, am0, aspec)):
         ctx.count()
         kinds[c[0]] = kinds.get(c[0], 0) + 1
@@ -906,6 +1116,9 @@ def run(ctx):
         bad_other = ("NONVALIDATING-DIFFERS" in i or i.startswith("exception") or i.startswith("scanners-differ")
                      or any(x.startswith(("VF", "VW", "X")) for x in i.split(" a=")[0][2:].split(",")))
         if bad_other:
+            nbad_other += 1
+            if nbad_other > 3:
+                continue
             ctx.violation("attr-impl", {"what": "attribute case: fatal/other error, scanners differ, or the attributes "
                                         "delivered without validation differ from those delivered with validation",
                                         "request": l1[k], "impl": i, "model": m1})
@@ -931,14 +1144,16 @@ def run(ctx):
                                              "is accepted (VC Enumeration / Notation Attributes violated, no error)",
                                              "request": l1[0], "impl": aimpl[0], "model_repaired": am0[0],
                                              "spec": aspec[0]})
-    for k, i, m1, m0, spv in adiv[:3]:
+    # cases in which the implementation's verdict contradicts the Spec come first: they carry a concrete replay
+    adiv.sort(key=lambda x: (x[1].startswith("e=- ") == (x[4] == "valid 1"), x[0]))
+    for k, i, m1, m0, spv in adiv[:4]:
         viol = i.startswith("e=- ") != (spv == "valid 1")
         ctx.violation("divergence" if viol else "correspondence",
                       {"what": "attribute case: implementation differs from the model" +
                        (" and contradicts the Spec" if viol else " (verdict still agrees with the Spec)"),
                        "request": l1[k], "impl": i, "model_as_written": m1, "model_repaired": m0, "spec": spv},
                       no_input=not viol)
-    ctx.coverage["attr_cases"] = {"total": len(acases), "valid": sum(1 for x in aspec if x == "valid 1"),
+    ctx.coverage["attr_cases"] = {"impl_faults": nbad_other, "total": len(acases), "valid": sum(1 for x in aspec if x == "valid 1"),
                                   "f25_class": f25_seen, "divergences": len(adiv)}
     ctx.coverage["input_distribution"] = dict(kinds, valid=nvalid, invalid=len(lines) - nvalid)
     ctx.coverage["traces_validated_against_impl"] = len(lines) + len(acases) + len(cat)
@@ -954,7 +1169,11 @@ def run(ctx):
                              "the declaration, white space / comments / PIs / text between children (same codes required); "
                              "attribute declarations of every type and default kind x 1..4 element instances, valid by "
                              "construction or with 1-2 rules broken, each also parsed without validation (same delivered "
-                             "attributes required); a catalogue of %d documents breaking one constraint each" % len(cat))
+                             "attributes required); documents with several element types and 60..140 declared attributes used across the "
+                             "rows of the scanner's per-document counter pool, one rule broken at a row boundary; element types "
+                             "occurring 300/1100 times; tags with ~100..130 attributes; defaults of reference types as the only "
+                             "violation; all attribute documents under both scanners with namespaces off and on; a catalogue of "
+                             "%d documents breaking one constraint each" % len(cat))
     ctx.coverage["exhaustive"] = False
     ctx.note("correspondence: %d cases, %d divergences, %d spec contradictions, %.1fs" % (
         len(lines), len(divergences), len(spec_viol), time.time() - t0))
